@@ -446,4 +446,195 @@ theorem sum_abs_ne_zero (x : List K) (hs : x.sum ≠ 0) : (x.map absR).sum ≠ 0
 
 end stats
 
+/-! ### discrete: the sorted sample array -/
+
+section disc
+variable {K : Type} [LinearOrder K]
+
+/-- in an ascending list the entries `< xi` are exactly the first `countLt s xi` ones -/
+theorem countLt_prefix (s : List K) (hs : Ordered true s) (xi : K) :
+    (∀ i v, i < countLt s xi → s[i]? = some v → v < xi) ∧ (∀ i v, countLt s xi ≤ i → s[i]? = some v → xi ≤ v) := by
+  induction s with
+  | nil => simp [countLt]
+  | cons b t ih =>
+    have hb : ∀ c ∈ t, b ≤ c := fun c hc => by simpa using List.rel_of_pairwise_cons hs hc
+    obtain ⟨ih1, ih2⟩ := ih (List.Pairwise.of_cons hs)
+    by_cases hlt : b < xi
+    · have hc : countLt (b :: t) xi = countLt t xi + 1 := by simp [countLt, List.filter_cons, hlt]
+      rw [hc]
+      constructor
+      · intro i v hi hv
+        cases i with
+        | zero => simp at hv; subst hv; exact hlt
+        | succ i => simp at hv; exact ih1 i v (by omega) hv
+      · intro i v hi hv
+        cases i with
+        | zero => omega
+        | succ i => simp at hv; exact ih2 i v (by omega) hv
+    · have hall : ∀ c ∈ t, ¬ c < xi := fun c hc h => hlt (lt_of_le_of_lt (hb c hc) h)
+      have hc : countLt (b :: t) xi = 0 := by
+        simp only [countLt, List.filter_cons, hlt, decide_false, Bool.false_eq_true, if_false]
+        rw [List.length_eq_zero_iff, List.filter_eq_nil_iff]
+        intro c hc; simpa using hall c hc
+      rw [hc]
+      constructor
+      · intro i v hi; omega
+      · intro i v _ hv
+        cases i with
+        | zero => simp at hv; subst hv; exact not_lt.mp hlt
+        | succ i =>
+          simp at hv
+          exact not_lt.mp (hall v (List.mem_of_getElem? hv))
+
+end disc
+
+/-! ### unique -/
+
+section uniq
+variable {R : Type} [BEq R] [LawfulBEq R]
+
+theorem uniqueGo_spec : ∀ (x seen new y : List R), uniqueGo x seen new = .ok y → new.Nodup →
+    (∀ v ∈ new, v ∉ seen ∧ v ∉ x) →
+    y.Nodup ∧ (∀ b ∈ y, b ∉ seen) ∧ (∀ b ∈ y, b ∈ x ∨ b ∈ new) := by
+  intro x
+  induction x with
+  | nil => intro seen new y hy _ _; simp [uniqueGo] at hy; subst hy; simp
+  | cons a t ih =>
+    intro seen new y hy hnd hnew
+    unfold uniqueGo at hy
+    split at hy
+    · rename_i hseen
+      split at hy
+      · cases hy
+      · rename_i v rest hrev
+        have hnewe : new = rest.reverse ++ [v] := by
+          have := congrArg List.reverse hrev; simpa using this
+        cases hr : uniqueGo t seen rest.reverse with
+        | error e => simp [hr, Except.map] at hy
+        | ok y' =>
+          simp [hr, Except.map] at hy; subst hy
+          subst hnewe
+          have hnd' : rest.reverse.Nodup := (List.nodup_append.mp hnd).1
+          have hv : v ∉ rest.reverse := by
+            intro h
+            have := (List.nodup_append.mp hnd).2.2 v h v (by simp)
+            exact this rfl
+          obtain ⟨i1, i2, i3⟩ := ih seen rest.reverse y' hr hnd'
+            (fun w hw => ⟨(hnew w (by simp [List.mem_reverse.mp hw] )).1,
+              fun h => (hnew w (by simp [List.mem_reverse.mp hw])).2 (List.mem_cons_of_mem _ h)⟩)
+          have hvn := hnew v (by simp)
+          refine ⟨List.nodup_cons.mpr ⟨?_, i1⟩, ?_, ?_⟩
+          · intro h
+            rcases i3 v h with h | h
+            · exact hvn.2 (List.mem_cons_of_mem _ h)
+            · exact hv h
+          · intro b hb
+            rcases List.mem_cons.mp hb with rfl | hb
+            · exact hvn.1
+            · exact i2 b hb
+          · intro b hb
+            rcases List.mem_cons.mp hb with rfl | hb
+            · right; simp
+            · rcases i3 b hb with h | h
+              · left; exact List.mem_cons_of_mem _ h
+              · right; simp [List.mem_reverse.mp h]
+    · rename_i hseen
+      cases hr : uniqueGo t (a :: seen) new with
+      | error e => simp [hr, Except.map] at hy
+      | ok y' =>
+        simp [hr, Except.map] at hy; subst hy
+        have hseen' : a ∉ seen := by simpa using hseen
+        obtain ⟨i1, i2, i3⟩ := ih (a :: seen) new y' hr hnd
+          (fun w hw => ⟨fun h => by
+              rcases List.mem_cons.mp h with rfl | h
+              · exact (hnew w hw).2 List.mem_cons_self
+              · exact (hnew w hw).1 h,
+            fun h => (hnew w hw).2 (List.mem_cons_of_mem _ h)⟩)
+        refine ⟨List.nodup_cons.mpr ⟨fun h => i2 a h List.mem_cons_self, i1⟩, ?_, ?_⟩
+        · intro b hb
+          rcases List.mem_cons.mp hb with rfl | hb
+          · exact hseen'
+          · exact fun h => i2 b hb (List.mem_cons_of_mem _ h)
+        · intro b hb
+          rcases List.mem_cons.mp hb with rfl | hb
+          · left; exact List.mem_cons_self
+          · rcases i3 b hb with h | h
+            · left; exact List.mem_cons_of_mem _ h
+            · right; exact h
+
+end uniq
+
+/-! ### argmin (first minimum) -/
+
+section argmin
+variable {K : Type} [LinearOrder K]
+
+theorem getElem?_snoc (pre : List K) (d : K) (j : Nat) (v : K) (h : (pre ++ [d])[j]? = some v) :
+    (j < pre.length ∧ pre[j]? = some v) ∨ (j = pre.length ∧ v = d) := by
+  rcases Nat.lt_or_ge j pre.length with hj | hj
+  · left; rw [List.getElem?_append_left hj] at h; exact ⟨hj, h⟩
+  · right
+    rw [List.getElem?_append_right hj] at h
+    rcases Nat.eq_zero_or_pos (j - pre.length) with h0 | hp
+    · rw [h0] at h; simp at h; exact ⟨by omega, h.symm⟩
+    · have : (j - pre.length) = (j - pre.length - 1) + 1 := by omega
+      rw [this] at h; simp at h
+
+theorem argminGo_spec (t : List K) : ∀ (pre : List K) (best : K) (bi : Nat),
+    pre[bi]? = some best → (∀ (j : Nat) (v : K), pre[j]? = some v → best ≤ v) → (∀ (j : Nat) (v : K), j < bi → pre[j]? = some v → best < v) →
+    ∃ b, (pre ++ t)[argminGo t pre.length best bi]? = some b ∧ (∀ (j : Nat) (v : K), (pre ++ t)[j]? = some v → b ≤ v)
+      ∧ (∀ (j : Nat) (v : K), j < argminGo t pre.length best bi → (pre ++ t)[j]? = some v → b < v) := by
+  induction t with
+  | nil =>
+    intro pre best bi h1 h2 h3
+    simp only [argminGo, List.append_nil]
+    exact ⟨best, h1, h2, h3⟩
+  | cons d t ih =>
+    intro pre best bi h1 h2 h3
+    have hbi : bi < pre.length := by
+      by_contra h
+      rw [List.getElem?_eq_none (by omega)] at h1; cases h1
+    unfold argminGo
+    by_cases hd : d < best
+    · rw [if_pos hd]
+      have := ih (pre ++ [d]) d pre.length (by simp)
+        (fun (j : Nat) (v : K) hv => by
+          rcases getElem?_snoc pre d j v hv with ⟨_, h⟩ | ⟨_, h⟩
+          · exact le_of_lt (lt_of_lt_of_le hd (h2 j v h))
+          · rw [h])
+        (fun (j : Nat) (v : K) hj hv => by
+          rcases getElem?_snoc pre d j v hv with ⟨_, h⟩ | ⟨h, _⟩
+          · exact lt_of_lt_of_le hd (h2 j v h)
+          · omega)
+      rw [List.length_append, List.length_singleton, List.append_assoc, List.singleton_append] at this
+      exact this
+    · rw [if_neg hd]
+      have := ih (pre ++ [d]) best bi (by rw [List.getElem?_append_left hbi]; exact h1)
+        (fun (j : Nat) (v : K) hv => by
+          rcases getElem?_snoc pre d j v hv with ⟨_, h⟩ | ⟨_, h⟩
+          · exact h2 j v h
+          · rw [h]; exact not_lt.mp hd)
+        (fun (j : Nat) (v : K) hj hv => by
+          rcases getElem?_snoc pre d j v hv with ⟨_, h⟩ | ⟨h, _⟩
+          · exact h3 j v hj h
+          · omega)
+      rw [List.length_append, List.length_singleton, List.append_assoc, List.singleton_append] at this
+      exact this
+
+/-- `argminFirst l` is the FIRST index of a minimum of `l` -/
+theorem argminFirst_spec (l : List K) (hl : l ≠ []) :
+    ∃ b, l[argminFirst l]? = some b ∧ (∀ (j : Nat) (v : K), l[j]? = some v → b ≤ v)
+      ∧ (∀ (j : Nat) (v : K), j < argminFirst l → l[j]? = some v → b < v) := by
+  cases l with
+  | nil => exact absurd rfl hl
+  | cons d t =>
+    have := argminGo_spec t [d] d 0 (by simp)
+      (fun (j : Nat) (v : K) hv => by
+        cases j with
+        | zero => simp at hv; rw [hv]
+        | succ j => simp at hv)
+      (fun (j : Nat) (v : K) hj _ => by omega)
+    simpa [argminFirst] using this
+
+end argmin
 end MysticVerif.Trans
